@@ -287,7 +287,10 @@ def judge(chk, lib, pop, m, text, ok_ids=None):
         r1 = p21fam.p21read(lib, inp, sc.path('out.p21'))
         chk.ev()
         if r1.crashed() or r1.timed_out:
-            return [('crash|%s|%s' % (m.key_shape(), r1.symptom()), 'p21read %s %s; %s' % (r1.symptom(), run.san_frames(r1.err), m.what), dict(files, stderr=r1.err[-5000:]))]
+            fr = run.san_frames(r1.err, 1)
+            # a sanitizer report names the defect by symptom + library function (as in C05): faulted input reaches one defect by many routes
+            key = 'crash|%s|in %s' % (r1.symptom(), fr[0].split(' ')[0]) if (r1.san and fr) else 'crash|%s|%s' % (m.key_shape(), r1.symptom())
+            return [(key, 'p21read %s %s; %s [%s]' % (r1.symptom(), run.san_frames(r1.err), m.what, m.key_shape()), dict(files, stderr=r1.err[-5000:]))]
         rm = p21fam.mon(lib, ['read', inp, 'dump', sc.path('dump.txt')], sc.d)
         if rm.crashed():
             return [('crash|%s|%s' % (m.key_shape(), rm.symptom()), 'p21mon %s; %s' % (rm.symptom(), m.what), dict(files, stderr=rm.err[-5000:]))]
@@ -296,7 +299,7 @@ def judge(chk, lib, pop, m, text, ok_ids=None):
         accepted_exit = (r1.rc == 0)
         accepted_sev = (sev is None or sev >= SEV_USERMSG)
         if accepted_exit or accepted_sev:
-            in_cx = 'in complex part' in m.kind
+            in_cx = 'in complex part' in m.kind or (m.cls == 'unterminated string' and m.kind.startswith('complex instance'))
             # open finding: STEPcomplex::STEPread drops the severities of its parts (repairing it makes shipped ap214e3 test files fail),
             # so EVERY violation inside a part is reported clean - one root cause, one key
             found.append(('accepted|%s|%s' % ('any violation inside a part of a complex instance' if in_cx else m.key_shape(),
